@@ -360,31 +360,44 @@ func c13Run(c *mc.Ctx, tc tableCase, pointer int) {
 	}
 }
 
-// c13Write: PAT/PMT written by the library must be the reference bytes.
+// c13Write: PAT/PMT written by the library must be the reference bytes (one PSIData may hold
+// several sections: each is written with its own header, length and CRC_32).
 func c13Write(c *mc.Ctx, tc tableCase) {
 	if tc.PID != 0 && tc.PID != 0x1000 {
 		return
 	}
-	h := tc.Hdrs[0]
-	sec := &astits.PSISection{
-		Header: &astits.PSISectionHeader{TableID: astits.PSITableID(h.TableID), SectionSyntaxIndicator: h.SSI, PrivateBit: h.Private, SectionLength: 1},
-		Syntax: &astits.PSISectionSyntax{Header: &astits.PSISectionSyntaxHeader{TableIDExtension: h.Ext, VersionNumber: h.Version, CurrentNextIndicator: h.CNI, SectionNumber: h.SN, LastSectionNumber: h.LSN}, Data: &astits.PSISectionSyntaxData{}},
+	want := []byte{0}
+	var secs []*astits.PSISection
+	for k := range tc.Secs {
+		h := tc.Hdrs[k]
+		sec := &astits.PSISection{
+			Header: &astits.PSISectionHeader{TableID: astits.PSITableID(h.TableID), SectionSyntaxIndicator: h.SSI, PrivateBit: h.Private, SectionLength: 1},
+			Syntax: &astits.PSISectionSyntax{Header: &astits.PSISectionSyntaxHeader{TableIDExtension: h.Ext, VersionNumber: h.Version, CurrentNextIndicator: h.CNI, SectionNumber: h.SN, LastSectionNumber: h.LSN}, Data: &astits.PSISectionSyntaxData{}},
+		}
+		if tc.PID == 0 {
+			sec.Syntax.Data.PAT = tc.Exp[k].Table.(*astits.PATData)
+		} else {
+			sec.Syntax.Data.PMT = tc.Exp[k].Table.(*astits.PMTData)
+		}
+		secs = append(secs, sec)
+		want = append(want, tc.Secs[k]...)
 	}
-	if tc.PID == 0 {
-		sec.Syntax.Data.PAT = tc.Exp[0].Table.(*astits.PATData)
-	} else {
-		sec.Syntax.Data.PMT = tc.Exp[0].Table.(*astits.PMTData)
-	}
-	want := append([]byte{0}, tc.Secs[0]...)
 	var got []byte
 	var n int
 	var err error
-	if p := mc.Catch(func() { got, n, err = astits.VerifWritePSIData(&astits.PSIData{Sections: []*astits.PSISection{sec}}) }); p != nil || err != nil {
-		c.Rep.Report("write-psi-failed:"+tc.What[:3], map[string]any{"kind": "psi", "what": tc.What, "message": fmt.Sprintf("panic=%v err=%v", p, err)})
+	sig := tc.What[:3]
+	if len(tc.Secs) > 1 {
+		sig += ":multi-section"
+	}
+	if p := mc.Catch(func() { got, n, err = astits.VerifWritePSIData(&astits.PSIData{Sections: secs}) }); p != nil || err != nil {
+		c.Rep.Report("write-psi-failed:"+sig, map[string]any{"kind": "psi", "what": tc.What, "message": fmt.Sprintf("panic=%v err=%v", p, err)})
 		return
 	}
 	if n != len(got) || !bytes.Equal(got, want) {
-		c.Rep.Report("write-psi-differs:"+tc.What[:3], map[string]any{"kind": "psi", "what": tc.What, "bytes": mc.Hex(want), "message": fmt.Sprintf("n=%d, %d bytes written, reference has %d\n got  %x", n, len(got), len(want), got[:minInt(len(got), 64)])})
+		c.Rep.Report("write-psi-differs:"+sig, map[string]any{"kind": "psi", "what": tc.What, "bytes": mc.Hex(want), "message": fmt.Sprintf("n=%d, %d bytes written, reference has %d\n got  %x", n, len(got), len(want), got[:minInt(len(got), 64)])})
+	}
+	if len(tc.Secs) > 1 {
+		c.Ev.Class("write-multi-section", 1)
 	}
 }
 
@@ -409,6 +422,20 @@ func checkC13(c *mc.Ctx) {
 			}
 			c.Ev.Distinct(tc.What + mc.CanonValue(tc.Exp[0].Table))
 		})
+		// writing several sections in one call: every pair and triple of consecutive models
+		if name == "PAT" || name == "PMT" {
+			for i := 0; i+2 < len(cases); i++ {
+				for cnt := 2; cnt <= 3; cnt++ {
+					mt := tableCase{What: name + " written together", PID: cases[i].PID}
+					for k := 0; k < cnt; k++ {
+						mt.Secs = append(mt.Secs, cases[i+k].Secs[0])
+						mt.Exp = append(mt.Exp, cases[i+k].Exp[0])
+						mt.Hdrs = append(mt.Hdrs, cases[i+k].Hdrs[0])
+					}
+					c13Write(c, mt)
+				}
+			}
+		}
 		// multi-section units: 2 and 3 sections of consecutive cases (small ones)
 		var multi int64
 		for i := 0; i+2 < len(cases) && name != "descriptor-loops"; i += 3 {
@@ -484,5 +511,5 @@ func checkC13(c *mc.Ctx) {
 		}
 	}
 	c.Ev.AddScenario(mc.Scenario{Name: "straddling section headers", SpaceSize: ns, Executed: ns, Exhaustive: true, Bound: "2-section PMT/SDT/EIT units whose first packet ends 0..5 bytes into the second section"})
-	c.Ev.Require("section-header-straddles-packets", "table:PAT", "table:PMT", "table:SDT", "table:NIT", "table:EIT", "table:TOT", "multi-section")
+	c.Ev.Require("section-header-straddles-packets", "table:PAT", "table:PMT", "table:SDT", "table:NIT", "table:EIT", "table:TOT", "multi-section", "write-multi-section")
 }
